@@ -253,6 +253,44 @@ def main(tier, seed):
         if not ok and len(direct_bad) < 4:
             direct_bad.append({"kind": "failing-input", "why": "points written to a CSV database and read back after reopening differ", "csv_kwargs": {k: str(v) for k, v in kw.items()},
                                "points": pts, "read_back": got, "read_on_the_live_object_after_a_rewrite": got_live})
+    # (3a) consecutive points with the SAME set of keys handed over in a DIFFERENT insertion order (a dict remembers its order), with other values:
+    # every key keeps its own value, in both prefix styles, with four keys and more
+    order_runs = 0
+    for style in (False, True, None):
+        for nkeys in (2, 4, 5, 7):
+            d = ck.work / f"order{order_runs}"
+            d.mkdir()
+            path = str(d / "db.csv")
+            keys = ["k%d" % j for j in range(nkeys)]
+            pts, reals = [], []
+            for i in range(4):
+                order = list(keys)
+                rng.shuffle(order)
+                if i == 1:
+                    order = list(reversed(pts[0]["_order"]))
+                tags = {k: f"{k}-v{i}" for k in order}
+                fields = {k: float(10 * i + int(k[1:])) for k in reversed(order)}
+                pts.append({"time": dbgen.T0 + i * 1000000, "meas": "m", "tags": dict(sorted(tags.items())), "fields": dict(sorted(fields.items())), "_order": order})
+                reals.append(tf.Point(time=M.zoned_dt(dbgen.T0 + i * 1000000), measurement="m", tags=tags, fields=fields))
+            try:
+                db = tf.TinyFlux(path)
+                for i, rp in enumerate(reals):
+                    db.insert(rp, compact_key_prefixes=(style if style is not None else i % 2 == 0))
+                live = [M.canon_point(q) for q in db.all(sorted=False)]
+                db.close()
+                db2 = tf.TinyFlux(path)
+                try:
+                    got = [M.canon_point(q) for q in db2.all(sorted=False)]
+                finally:
+                    db2.close()
+            except Exception as e:  # noqa
+                got = live = ("raise", type(e).__name__)
+            order_runs += 1
+            want = [{k: v for k, v in p.items() if k != "_order"} for p in pts]
+            same2 = lambda g: not isinstance(g, tuple) and len(g) == len(want) and all(py_equal(a, x) for a, x in zip(want, g))
+            if not (same2(got) and same2(live)) and len(direct_bad) < 4:
+                direct_bad.append({"kind": "failing-input", "why": "points with the same keys in another insertion order, written one after the other and read back, differ",
+                                   "compact_key_prefixes": style, "points": want, "key_orders": [p["_order"] for p in pts], "read_back": got, "read_on_the_live_object": live})
     # (3b) the same round trip with the PROCESS in another time zone (the file holds UTC wall-clock text; nothing may depend on the local zone)
     import time as _time
     old_tz = os.environ.get("TZ")
